@@ -3,7 +3,7 @@ from props import simcommon
 HARNESS = ["sim"]
 ASSUMPTIONS = ["fork-free DAGs produced by honest cores; cache sizes above the number of events (below the in-flight window is not claimed)",
                "batching clause: known finding C03-batching-dependence (refuted in Coq, replayed on the code)",
-               "theorems: round / witness / Lamport timestamp / strongly-see of a stored event are functions of its ancestry in per-event mode under static membership (C03_*_function_of_ancestry); admission, round-received, frames, blocks not yet covered"]
+               "theorems (per-event mode, static membership, fork-free attempt sets): admission and every observable are independent of the topological insertion order, prefix consistency, functions of ancestry; store type / cache size independence is exploration (DAG re-feeding, a small-cache Badger node in live gossip) on top of the store refinement C16"]
 def run(ctx):
     res = simcommon.run(ctx, "dagrun")
     findings, diffs = simcommon.findings_for(res, "C03", None)
@@ -15,6 +15,16 @@ def run(ctx):
         f2, d2 = simcommon.findings_for(r2, "C03", None)
         findings = f2 + findings; diffs = d2 + diffs   # first: the known batching classes must not crowd them out
         extra[fl] = simcommon.coverage_from(r2)
+    # store type / cache size in live gossip: node 0 runs on a BadgerStore with cache 100 while the undetermined backlog exceeds the
+    # cache (stall flavour) / while more than cache-size blocks are delivered (latesigs flavour); any disagreement of that node with
+    # the in-memory nodes on a delivered block is a dependence of the consensus output on the store (oracle line V C01 blocks-differ)
+    for fl in ("stall", "latesigs"):
+        r3 = simcommon.run(ctx, fl)
+        for v in r3["vlines"]:
+            m = __import__("re").search(r" V C01 (blocks-differ\S*) (.*)$", v)
+            if m:
+                findings.insert(0, dict(cls="store-or-cache-dependence:" + m.group(1), key=("flavour=%s " % fl) + m.group(2)[:180], detail=v))
+        extra[fl] = simcommon.coverage_from(r3)
     cov = simcommon.coverage_from(res, "Each history's global DAG is re-fed to fresh Hashgraphs: 3-6 random topological orders, 3 downward-closed "
         "cuts, Badger store with two cache sizes, batch sizes {2,3,5,7,11,once-at-end}; pairwise comparison of projected observables (round, witness, "
         "lamport, projected fame, round-received, blocks incl. frame hash) and per-run replay on the model (per-event and batched).")
